@@ -1,11 +1,14 @@
 #!/bin/bash
-# tools/evalseeds.sh [tier]: official evaluation of every stored seeded change: apply the patch to
-# /repo, run the check of the property it breaks, undo the patch straight afterwards.
+# tools/evalseeds.sh [tier] [ids...]: official evaluation of stored seeded changes: apply the patch
+# to /repo, run the check of the property it breaks (or the checks named in meta.json
+# "detect_with"), undo the patch straight afterwards.
 cd "$(dirname "$0")/.."
-tier=${1:-quick}
-for d in seeded/C*/; do
-  id=$(basename $d); prop=${id:0:3}
+tier=${1:-quick}; shift
+ids=${@:-$(ls -d seeded/C*/ | xargs -n1 basename)}
+for id in $ids; do
+  d=seeded/$id
+  props=$(python3 -c "import json;m=json.load(open('$d/meta.json'));print(' '.join(m.get('detect_with',[m['property']])))")
   echo "== $id"
-  ./tools/tryseed.sh "$PWD/${d}patch.diff" $tier $prop 2>&1 | grep -v "^KNOWN" | cut -c1-220 | head -4
+  ./tools/tryseed.sh "$PWD/$d/patch.diff" $tier $props 2>&1 | grep -v "^KNOWN" | cut -c1-220 | head -8
 done
 git -C /repo status --short | head -3
